@@ -193,6 +193,9 @@ def run(tier, seed, replay=None):
                 ens = ens[:2]
             for en in ens:
                 jobs.append((k, "%s:error=%s:when=%d" % (n, en, counts[n]), "%s #%d in the call fails with %s (%s)" % (n, i - a, en, rest[:50])))
+            if n in ("read", "openat"):
+                # a persistent fault: this call and every later one of its kind fails (a file that stays unreadable, not a transient hiccup)
+                jobs.append((k, "%s:error=%s:when=%d+" % (n, ens[0], counts[n]), "%s #%d in the call and every later %s fail with %s (%s)" % (n, i - a, n, ens[0], rest[:50])))
     if tier == "thorough":
         # sampled pairs of faults
         singles = [j for j in jobs if j[1]]
